@@ -338,7 +338,21 @@ func (c *ctx) packet(mode int) []byte {
 		w |= uint16(c.rng.Intn(8)) << 8 // reserved bits
 	}
 	p := []byte{byte(w >> 8), byte(w), byte(n)}
-	return append(p, c.payload(n)...)
+	data := c.payload(n)
+	// fixed-point data: integer words at the ends of the range (sign word 0x80.., 0x7f.., 0xff..)
+	if mode == 0 && c.rng.Intn(3) == 0 {
+		switch id.Precision {
+		case xsens.PrecisionFP1632:
+			for g := 0; 6*g+5 < len(data); g++ {
+				data[6*g+4] = []byte{0x80, 0x80, 0x7f, 0xff, 0x00, 0x81}[c.rng.Intn(6)]
+			}
+		case xsens.PrecisionFP1220:
+			for g := 0; 4*g+3 < len(data); g++ {
+				data[4*g] = []byte{0x80, 0x7f, 0xff, 0x00}[c.rng.Intn(4)]
+			}
+		}
+	}
+	return append(p, data...)
 }
 
 func (c *ctx) measurementPayload(maxPackets int, clean bool) []byte {
